@@ -70,6 +70,8 @@ def known_cause(payload):
     return None
 
 
+EXTRA_PROPS = ["UPVerif.Props.C07Lift"]
+
 MANIFEST = {
     "level_text": ("Lean 4 theorems (Props/C07.lean): a generic backward-simulation theorem over abstract transition systems "
                    "(every valid plan of the original has a compiled counterpart of the same length, +1 with a goal action, mapping "
@@ -79,8 +81,8 @@ MANIFEST = {
                    "ConditionalEffectsRemover on a concrete problem (effect-less variant pruned); five compiler models tied to /repo "
                    "by a differential comparison of compiled problems; for ALL ten compilers and six pipelines the property itself "
                    "is decided on the real code by an exhaustive end-to-end differential (every valid original plan up to length 3/4)."),
-    "level_note": ("Partial: parameterless actions, quantifier-free invariants, DisjunctiveConditionsRemover without goal action "
-                   "(the k+1 bound is proved only in the abstract frame); no theorem for BoundedTypesRemover, QuantifiersRemover, "
+    "level_note": ("Partial: Props/C07Lift.lean lifts the backward simulations to ALL action instances (same hypotheses as "
+                   "Props/C06Lift.lean; k+1 bound with goal actions included); quantifier-free invariants; no theorem for BoundedTypesRemover, QuantifiersRemover, "
                    "Grounder, NegativeConditionsRemover, UsertypeFluentsRemover, TrajectoryConstraintsRemover, "
                    "UndefinedInitialNumericRemover; the pruning of effect-less variants (documented, relied on by the test-suite) "
                    "and of statically conflicting variants makes the full statement false: open findings, the theorems carry "
